@@ -862,6 +862,25 @@ def it_combinations(ex, st, args, kwargs):
     return [tuple(t) for t in itertools.combinations(seq, r)]
 
 
+def sk_euclidean(ex, st, args, kwargs):
+    """sklearn euclidean_distances(X, Y, squared): entry (i,j) = (squared) Euclidean distance of rows."""
+    L.used("sklearn.metrics.pairwise.euclidean_distances: entry (i,j) is the (squared) distance of row i of X and row j of Y")
+    X, Y = L.as_arr(args[0]), L.as_arr(args[1])
+    if X.ndim != 2 or Y.ndim != 2 or X.shape[1] != Y.shape[1]:
+        raise L.ShapeError("euclidean_distances shapes")
+    sq = kwargs.get("squared", False)
+    out = []
+    for i in range(X.shape[0]):
+        for j in range(Y.shape[0]):
+            acc = Fraction(0)
+            for c in range(X.shape[1]):
+                d = V.sub(X.a[i, c], Y.a[j, c])
+                acc = V.add(acc, V.mul(d, d))
+            out.append(acc if (sq is True) else L.sqrt_scalar(acc))
+    return L.mk(out, (X.shape[0], Y.shape[0]), "f")
+
+
+NP["sklearn.metrics.pairwise.euclidean_distances"] = sk_euclidean
 NP["itertools.product"] = it_product
 NP["itertools.combinations"] = it_combinations
 
@@ -1050,7 +1069,15 @@ def call_builtin(ex, st, name, args, kwargs, node):
                 m = setmode.fresh_const(ex.ctx, "range", setmode.SETSORT)
                 st.pc.append(z3.ForAll([e], z3.Select(m, e) == z3.And(V.Z(lo) <= e, e < V.Z(hi))))
                 return setmode.SSet(m, ex.ctx, "range")
-        raise Unsupported("set() outside the set-level mode")
+        # concrete sets of known small integers (index bookkeeping)
+        items = ex.iter_concrete(args[0]) if args else []
+        vals = []
+        for x in items:
+            c = V.conc(x) if not isinstance(x, int) else x
+            if not isinstance(c, int) or isinstance(c, bool):
+                raise Unsupported("set() of symbolic values outside the set-level mode")
+            vals.append(c)
+        return ConcSet(vals)
     if name == "dict":
         return dict(**kwargs)
     if name in ("max", "min"):
@@ -1200,6 +1227,46 @@ def do_hasattr(ex, st, v, name):
     if isinstance(v, Opaque):
         return name in v.attrs
     raise Unsupported("hasattr on %r" % (v,))
+
+
+class ConcSet:
+    """A Python set of known small non-negative integers (iteration order: increasing, as CPython's)."""
+
+    def __init__(self, vals):
+        self.vals = sorted(set(vals))
+        L.used("set of small non-negative ints iterates in increasing order (CPython)")
+
+    def binop(self, ex, st, op, a, b):
+        if not (isinstance(a, ConcSet) and isinstance(b, ConcSet)):
+            raise Unsupported("set operation with a non-set")
+        if isinstance(op, ast.Sub):
+            return ConcSet([x for x in a.vals if x not in b.vals])
+        if isinstance(op, ast.BitOr):
+            return ConcSet(a.vals + b.vals)
+        if isinstance(op, ast.BitAnd):
+            return ConcSet([x for x in a.vals if x in b.vals])
+        raise Unsupported("set operator")
+
+    def iter_concrete(self):
+        return list(self.vals)
+
+    def length(self, ex, st):
+        return len(self.vals)
+
+    def contains(self, ex, st, item):
+        c = V.conc(item) if not isinstance(item, int) else item
+        if isinstance(c, int):
+            return c in self.vals
+        r = False
+        for x in self.vals:
+            r = V.lor(r, V.eq(item, x))
+        return r
+
+    def to_list(self, ex, st):
+        return list(self.vals)
+
+    def clone(self, memo):
+        return self
 
 
 class EnumVal:
